@@ -39,6 +39,14 @@ def streams(rng, secret):
             proto.frame(0x7e, b'unknown-frame-content'), proto.frame(ids47.keep_alive, proto.varint(5)),
             proto.frame(ids47.play_disconnect, proto.string('{"text":"bye"}'))]
     out['play'] = dict(kind='connect', allowed=[47], pv=47, conns=[(play, None)])
+    # at protocol 47 the server may dictate the compression threshold in the play state too (threshold 0: every packet compressed)
+    from minecraft.networking.packets import clientbound as cb_
+    sc_id = cb_.play.SetCompressionPacket.get_id(ids47.ctx)
+    for thr_p in (0, 64):
+        pc = [proto.frame(ids47.login_success, ids47.b_login_success()), proto.frame(ids47.keep_alive, proto.varint(21)), proto.frame(sc_id, proto.varint(thr_p)),
+              proto.frame(ids47.keep_alive, proto.varint(22), thr_p), proto.frame(0x7e, b'opaque' * 20, thr_p), proto.frame(ids47.keep_alive, proto.varint(23), thr_p),
+              proto.frame(ids47.play_disconnect, proto.string('{"text":"bye"}'), thr_p)]
+        out['play+set-compression-%d' % thr_p] = dict(kind='connect', allowed=[47], pv=47, conns=[(pc, None)])
     # a conversation with one large frame (a chunk-sized unknown packet): buffering boundaries inside a frame
     large = [proto.frame(ids47.login_success, ids47.b_login_success()), proto.frame(ids47.keep_alive, proto.varint(1)),
              proto.frame(0x7e, bytes((i * 7) % 251 for i in range(20011))), proto.frame(ids47.keep_alive, proto.varint(2))]
@@ -190,7 +198,7 @@ def run(chk):
             if (len(got) != exp_n) if gone is None else (len(got) > exp_n):         # (a failed forced write ends the conversation early)
                 what = '%d packets delivered to listeners from this connection; %d frames are wholly contained in the prefix' % (len(got), exp_n)
             else:
-                ended_by_script = (name == 'play' and complete == len(frames)) or (name == 'status' and complete == len(frames))
+                ended_by_script = (name.startswith('play') and name != 'play+large-frame' and complete == len(frames)) or (name == 'status' and complete == len(frames))
                 if name.startswith('status+login') and ci == 0 and complete == 0:
                     # unanswered status query: the documented fallback - a login connection with the default version
                     hs = [s for s in servers[1:] if s.sends]
@@ -259,7 +267,7 @@ def whole_streams(chk, suite):
     plain = b''.join(frames)
     ct = bytes(run_model([('mc_encrypt', [secret, [plain[cut:]]])])[0][0])
     enc['wire'] = [plain[:cut] + ct]
-    for name in ('login+compression', 'login+encryption', 'play'):
+    for name in ('login+compression', 'login+encryption', 'play', 'play+set-compression-0', 'play+set-compression-64'):
         sc = S[name]
         wire = (sc.get('wire') or [b''.join(fr) for fr, _c in sc['conns']])[0]
         frames = sc['conns'][0][0]
